@@ -250,7 +250,9 @@ func (iter *DBIterator) materialize(src *kv.Entry) bool {
 	if iter == nil || src == nil {
 		return false
 	}
-	if src.IsDeletedOrExpired() {
+	// Entry.IsDeletedOrExpired only recognises a nil value; values decoded from
+	// memtables and tables are never nil, so the delete bit has to be tested.
+	if src.IsDeletedOrExpired() || isDeletedOrExpired(src.Meta, src.ExpiresAt) {
 		return false
 	}
 	iter.entry = *src
